@@ -2,6 +2,7 @@ import LdkModel.Driver.Util
 import LdkModel.Model.Punish
 import LdkModel.Model.JusticeChain
 import LdkModel.Generated.Package
+import LdkModel.Driver.Packages
 namespace Ldk.Driver
 open Ldk Ldk.Secrets Ldk.Punish Ldk.Pkg
 
@@ -182,6 +183,6 @@ def c06justice : Drv where
     | ["disc", n] => chainStep (.disconnect (nat! n))
     | ["rebc"] => chainStep .rebroadcast
     | ["reload"] => chainStep .reload
-    | _ => (s, "bad-op")
+    | _ => (s, (PkgOps.pkgStep ws).getD "bad-op")     -- the package-layer ops (Driver/Packages.lean)
 
 end Ldk.Driver
